@@ -48,7 +48,13 @@ fn trace(a: &[String]) {
             g_setup_prefixes(&mut w, if thorough { 5 } else { 3 }, shard, nshards);
         }
         "play" => g_play(&mut w, &mut rng, 14 * mul, 60),
-        "rep" => g_rep(&mut w, &mut rng, 10 * mul, 160),
+        "rep" => {
+            g_rep(&mut w, &mut rng, 10 * mul, 160);
+            let mut r2 = Rng::new(seed, "seek", shard);
+            g_seek(&mut w, &mut r2, 8 * mul, 14);
+            let mut r3 = Rng::new(seed, "built", shard);
+            g_built(&mut w, &mut r3, 40 * mul);
+        }
         "local" => g_local(&mut w, &mut rng, seed, shard, nshards, thorough),
         "tables" => g_tables(&mut w, &mut rng, shard, nshards, thorough),
         "str" => {
